@@ -28,7 +28,7 @@ for lv in (0, 1, 2, 3):
                         bounded="chain of %d input level(s) of arbitrary kinds (macro, REPT, IRP/IRPN, include file), %s format; each level rendered as a two-character token" % (lv, "-gnuerrors" if gnu else "native")))
 TRUSTED_BASE = ["ghost output channels / exit monitor of h_asmerr.c", "argument-logging stubs of h_as_rept.c"]
 ASSUMPTIONS = ["announcing the numbers of the EXPECT machinery's own messages (2130, 2150, 2160) is excluded"]
-NOT_COVERED = ["GetErrorPos chain concatenation", "MACRO_Processor line counting", "INCLUDE_SearchCore (file search)", "column markers", "-gnuerrors formatting"]
+NOT_COVERED = ["MACRO_Processor line counting", "INCLUDE_SearchCore (file search)", "column markers", "-gnuerrors formatting"]
 EXPLANATION = ("Kernel only: (1) EXPECT/ENDEXPECT: an announced number is suppressed exactly once per announcement (multiset with witness number), "
                "unannounced numbers are untouched, ENDEXPECT reports every announcement left, a missing ENDEXPECT is reported at pass end; "
                "(2) REPT/IRP: after a body line was delivered, CurrLine and the position report name that iteration/parameter and that body line. "
@@ -37,7 +37,7 @@ MANIFEST = dict(
     category="other",
     text="Contracts on the kernel functions: EXPECT machinery of asmerr.c (suppression consumes exactly one matching announcement, ENDEXPECT reports "
          "the rest, pass exit reports a missing ENDEXPECT) and the position reports of repetition bodies in as.c (REPT_GetPos/IRP_GetPos agree with "
-         "what REPT_Processor/IRP_Processor just delivered; CurrLine = start line + body line), line counting across INCLUDE (fresh count inside, includer's count and file name restored) and the start line of every new input level; ReadLnCont returns the number of physical lines a logical line was joined from (bounded; a last line without newline counts). The run-level statement about every diagnostic of "
-         "every program is not decided; the surroundings (include chain, macro bodies, column markers) are named unverified.",
+         "what REPT_Processor/IRP_Processor just delivered; CurrLine = start line + body line), line counting across INCLUDE (fresh count inside, includer's count and file name restored) and the start line of every new input level; ReadLnCont returns the number of physical lines a logical line was joined from (bounded; a last line without newline counts); GetErrorPos with the real *_GetPos functions names the innermost include file and every macro / repetition level inside it, outermost first (native), or the include chain and the innermost file:line (-gnuerrors), for chains of up to 2 (native) / 3 (gnu) levels of arbitrary kinds. The run-level statement about every diagnostic of "
+         "every program is not decided; column markers and the formatting of the numbers are named unverified.",
     note="Bounded list lengths (<= 3 announcements, <= 3 body lines, <= 4 parameters). Trusted: ghost channels, logging stubs.",
 )
